@@ -85,7 +85,7 @@ pub fn run(case: &Sx, out: &mut Vec<Ev>) {
         let o = op.list();
         let n = |i: usize| o[i].num();
         match n(0) {
-            1 => t.add_memory_proximity(MemoryProximityDomain::new(n(1) as u32, n(2) as u32)),
+            1 => t.add_memory_proximity(raw(MemoryProximityDomain::new(n(1) as u32, n(2) as u32))),
             2 => {
                 let mut s = SystemLocality::new(loc_type(n(1)), data_type(n(2)), min_transfer(n(3)), n(4), n(5) as usize, n(6) as usize);
                 for b in o[7].list() {
